@@ -176,6 +176,9 @@ func init() {
 				mt, _ = strconv.Atoi(v)
 			}
 			wb := &wbuild{g: genCfg{MaxTargets: mt, Features: map[string]bool{}}, mode: params["mode"], focus: params["focus"], load: params["load"]}
+			if f := params["force"]; f != "" {
+				wb.force = strings.Split(f, "+")
+			}
 			wb.sweepInv, _ = strconv.Atoi(params["sweep_inv"])
 			wb.sweepOp, _ = strconv.Atoi(params["sweep_op"])
 			return wb
@@ -209,6 +212,13 @@ func (w *wbuild) Drive(s *simrt.Sched, out *RunResult) {
 		w.g.Features = map[string]bool{}
 		feats = nil
 		for _, f := range strings.Split(only, "+") {
+			w.g.Features[f] = true
+			feats = append(feats, f)
+		}
+	}
+	// force=<f1+f2>: features a job concentrates on are always enabled (the rest stays swarm-random)
+	for _, f := range w.force {
+		if !w.g.Features[f] {
 			w.g.Features[f] = true
 			feats = append(feats, f)
 		}
@@ -740,7 +750,8 @@ func (w *wbuild) checkBuild(res *InvResult, req BuildReq, opts InvOpts, cm *cach
 	}
 	ev := NewEval(u, opts.Platform)
 	diskBefore := w.diskBefore
-	if req.Kind == "run" {
+	isRun := req.Kind == "run"
+	if isRun {
 		req.Kind = "build"
 	}
 	sel := u.Select(req, opts.Platform)
@@ -870,7 +881,15 @@ func (w *wbuild) checkBuild(res *InvResult, req BuildReq, opts InvOpts, cm *cach
 		if blocked {
 			status[l] = "skipped"
 			if executed[l] > 0 {
-				report("C05", "built-despite-failed-dependency", "wbuild", l+" executed although a dependency failed or was skipped")
+				if opts.LoadOutputs == "minimal" && (faulted || (w.fs != nil && w.fs.damaged)) {
+					// minimal mode re-runs a restored dependency whose outputs cannot be loaded (here:
+					// because of an injected fault / a lost blob) on behalf of ONE dependant; if that
+					// re-run fails, only this dependant fails, the dependency's own node stays a cache
+					// hit and its other dependants may proceed
+					cm.unc[ev.Strict(l)] = true
+				} else {
+					report("C05", "built-despite-failed-dependency", "wbuild", l+" executed although a dependency failed or was skipped")
+				}
 			}
 			continue
 		}
@@ -1070,6 +1089,13 @@ func (w *wbuild) checkBuild(res *InvResult, req BuildReq, opts InvOpts, cm *cach
 		}
 		return
 	}
+	if res.ExitCode != 0 && isRun && opts.LoadOutputs == "minimal" && w.fs != nil && w.fs.damaged && strings.Contains(res.Log, "could not load the outputs of") {
+		// `grog run` of a restored target whose own blob was lost: the build part succeeded
+		// (nothing had to be materialised), running needs the binary. C07 speaks of the next
+		// *build*; whether `grog run` re-executes or reports the loss is left open.
+		simrt.Probe("grog-run-after-blob-loss-failed")
+		return
+	}
 	if res.ExitCode != 0 {
 		report("C05", "unexpected-failure", "exit-nonzero", fmt.Sprintf("no selected target fails in the model, but grog exited %d", res.ExitCode))
 		return
@@ -1203,15 +1229,18 @@ func short(s string) string {
 	return s
 }
 
-// depToggled: a direct dependency had its no-cache tag toggled during this history. The output
-// hash a dependant sees for an uncached dependency is computed differently from the one of a
-// cached dependency, so the first builds after the toggle may re-execute dependants
-// (DESIGN.md appendix A: left open).
+// depToggled: the target or a (transitive) dependency had its no-cache tag toggled during this
+// history. The output hash a dependant sees for an uncached dependency is computed differently
+// from the one of a cached dependency, and a dependant without outputs hands the change on, so
+// the builds after the toggle may re-execute anything downstream (DESIGN.md appendix A: left open).
 func (w *wbuild) depToggled(u *Universe, sp *Spec) bool {
-	for _, d := range u.DepTargets(sp) {
+	if len(w.toggled) == 0 {
+		return false
+	}
+	for _, d := range u.Topo([]string{sp.Label()}) {
 		if w.toggled[d] {
 			return true
 		}
 	}
-	return w.toggled[sp.Label()]
+	return false
 }
